@@ -14,7 +14,7 @@ use std::{
 use qbase::{
     cid::{ArcCidCell, ArcLocalCids, ArcRemoteCids, ConnectionId, GenUniqueCid},
     frame::{
-        Frame, NewConnectionIdFrame, RetireConnectionIdFrame,
+        Frame, ReliableFrame,
         io::{ReceiveFrame, SendFrame},
     },
 };
@@ -51,32 +51,22 @@ pub fn gen_hist(r: &mut Rng, n: usize, handshaken: bool) -> CidHist {
     CidHist { local_limit: *r.pick(&[2u8, 2, 3, 4, 8, 10]), peer_limit: *r.pick(&[2u8, 2, 3, 4, 8, 10]), handshaken, ops }
 }
 
-#[derive(Default)]
-struct SinkInner {
-    new_cid: Vec<NewConnectionIdFrame>,
-    retire: Vec<RetireConnectionIdFrame>,
-}
-
-/// what `ArcReliableFrameDeque` is in qconnection: the queue of frames to be sent to the peer
+/// what `ArcReliableFrameDeque<ReliableFrame>` is in qconnection: the queue of frames to be sent to the peer
+/// (entries are `ReliableFrame`s, as there, so that queueing a frame costs what it costs in the stack)
 #[derive(Clone, Default)]
-pub struct Sink(Arc<Mutex<SinkInner>>);
+pub struct Sink(Arc<Mutex<std::collections::VecDeque<ReliableFrame>>>);
 
-impl SendFrame<NewConnectionIdFrame> for Sink {
-    fn send_frame<I: IntoIterator<Item = NewConnectionIdFrame>>(&self, iter: I) {
-        self.0.lock().unwrap().new_cid.extend(iter);
-    }
-}
-
-impl SendFrame<RetireConnectionIdFrame> for Sink {
-    fn send_frame<I: IntoIterator<Item = RetireConnectionIdFrame>>(&self, iter: I) {
-        self.0.lock().unwrap().retire.extend(iter);
+impl<T: Into<ReliableFrame>> SendFrame<T> for Sink {
+    fn send_frame<I: IntoIterator<Item = T>>(&self, iter: I) {
+        self.0.lock().unwrap().extend(iter.into_iter().map(Into::into));
     }
 }
 
 impl Sink {
     fn counts(&self) -> (usize, usize) {
         let g = self.0.lock().unwrap();
-        (g.new_cid.len(), g.retire.len())
+        let n = g.iter().filter(|f| matches!(f, ReliableFrame::NewConnectionId(_))).count();
+        (n, g.len() - n)
     }
 }
 
@@ -135,11 +125,13 @@ impl Fx {
     /// the peer learns the ids issued since the last call
     fn pump(&mut self) {
         let g = self.sink.0.lock().unwrap();
-        for f in &g.new_cid[self.seen_new..] {
-            self.peer_holds.insert(f.sequence());
-            self.local_next = self.local_next.max(f.sequence() + 1);
+        for f in g.iter().skip(self.seen_new) {
+            if let ReliableFrame::NewConnectionId(f) = f {
+                self.peer_holds.insert(f.sequence());
+                self.local_next = self.local_next.max(f.sequence() + 1);
+            }
         }
-        self.seen_new = g.new_cid.len();
+        self.seen_new = g.len();
     }
 
     fn run(&mut self, h: &CidHist) -> Result<(), String> {
@@ -191,6 +183,7 @@ pub fn probe(h: &CidHist, forged: &Forged, _seed: u64) -> ProbeResult {
     if let Err(e) = fx.run(h) {
         return ProbeResult::harness(e);
     }
+    meter::arm(true);
     let mut res = ProbeResult::new();
     res.units = fx.units + fx.local_limit + h.peer_limit as u64;
     let (p_next, p_rpt, local_next, limit) = (fx.p_next, fx.p_rpt, fx.local_next, fx.local_limit);
@@ -294,6 +287,6 @@ pub fn probe(h: &CidHist, forged: &Forged, _seed: u64) -> ProbeResult {
     if after.0 > before.0 {
         res.notes.push("probe.new_cid_frames_emitted");
     }
-    let _ = simcore::panics::guarded(move || drop(fx));
+    let _ = meter::guarded(move || drop(fx));
     res
 }
